@@ -7,6 +7,7 @@ R18.1 (K3+K2) PeerId{..} is constructed only in from_public_key_protobuf / from_
 R18.2 (K5) constants agree with the libp2p-identity version multiaddr resolves to (registry source) and with multihash-codetable's
       SHA2-256 code; the reference's from_multihash accepts the same (code, length) classes (discharges the `expect` in
       From<PeerId> for multiaddr::PeerId); MAX_INLINE_KEY_LENGTH <= 64 (discharges the wrap(..).expect(..) sites)
+R18.4 (K5) from_bytes uses the same whole-input multihash parser as the reference and validates through from_multihash
 R18.3 (K6) the parsers (from_bytes, from_str, try_from_multiaddr, TryFrom impls, serde visitors) contain no panic site
 Not decided: acceptance equality with the reference on all byte strings; round trips (value reasoning inside multihash/bs58).
 """
@@ -155,6 +156,28 @@ def r18_2(ctx, fx):
         ctx.ob("R18.2", "From<PeerId>-for-multiaddr::PeerId/only-panic-site-is-the-discharged-expect", ok, site=fn.site(fn.entry), cfg=fx.cfg, detail=str([(p["kind"], p["desc"]) for p in ps]))
 
 
+def r18_4(ctx, fx):
+    """sibling agreement with the reference on the byte parser: from_bytes decodes with the parser that must consume the whole
+    input (Multihash::from_bytes), exactly like libp2p-identity, and hands that multihash to from_multihash"""
+    fn = ctx.fn(fx, P + "from_bytes", "R18.4")
+    if fn is None:
+        return
+    mh = [c for c in fn.calls(r"multihash::Multihash(<.*>)?::\w+$") if not c.from_macro]
+    names = sorted({c.name.rsplit("::", 1)[-1] for c in mh})
+    rsrc, ver = refsrc.source("libp2p-identity", "src/peer_id.rs")
+    m = re.search(r"pub fn from_bytes\(data: &\[u8\]\).*?\n    \}", rsrc or "", re.S)
+    ref_parsers = sorted(set(re.findall(r"Multihash::(\w+)\(", m.group(0)))) if m else []
+    ctx.ob("R18.4", "from_bytes/same-multihash-parser-as-the-reference", bool(ref_parsers) and names == ref_parsers, site=fn.site(fn.entry), cfg=fx.cfg,
+           detail="litep2p uses Multihash::%s, libp2p-identity %s uses Multihash::%s (from_bytes rejects trailing bytes, read does not)" % (names, ver, ref_parsers))
+    fm = fn.calls(r"PeerId::from_multihash$")
+    ok = bool(fm) and bool(mh) and any(("call", mh[0].name) in fn.roots(a) for a in fm[0].args)
+    ctx.ob("R18.4", "from_bytes/parsed-multihash-is-validated-by-from_multihash", ok, site=fn.site(fn.entry), cfg=fx.cfg)
+    fs = ctx.fn(fx, "<peer_id::PeerId as std::str::FromStr>::from_str", "R18.4")
+    if fs is not None:
+        ok = bool(fs.calls(r"PeerId::from_bytes$")) and bool(fs.calls(r"bs58::decode"))
+        ctx.ob("R18.4", "from_str/base58-then-from_bytes", ok, site=fs.site(fs.entry), cfg=fx.cfg)
+
+
 PARSERS = [
     P + "from_bytes", P + "from_bytes::{closure#0}", P + "from_bytes::{closure#1}", P + "from_multihash", P + "try_from_multiaddr",
     P + "try_from_multiaddr::{closure#0}", "<peer_id::PeerId as std::str::FromStr>::from_str",
@@ -197,5 +220,6 @@ def run(ctx):
     r18_1(ctx, fx)
     r18_2(ctx, fx)
     r18_3(ctx, fx)
+    r18_4(ctx, fx)
     ctx.assume("multihash::Multihash::from_bytes/wrap, bs58::decode, multiaddr::PeerId::try_from are total (return Err instead of panicking)")
     ctx.assume("the registry source of the crate versions pinned in /repo/Cargo.lock is what the build uses")
